@@ -1217,7 +1217,12 @@ class NamespaceManager(dict):
         if self.parent:
             # all attempts have failed so far
             # now delegate this to the parent NamespaceManager
-            return self.parent.valid_qualified_name(qname)
+            qualified_name = self.parent.valid_qualified_name(qname)
+            if qualified_name is not None:
+                # register the inherited namespace here as well, so that the
+                # name keeps its meaning if this manager later binds the same
+                # prefix (or a default namespace) to something else
+                return self.valid_qualified_name(qualified_name)
 
         # Default to FAIL
         return None
